@@ -455,8 +455,11 @@ func C05(c *vf.Ctx) {
 			w.Flow(60, nil)
 			for i := 0; i < 3 && strings.HasPrefix(w.Last().App["sv"], "h:"); i++ {
 				w.Step(sys.Stim{K: "hstep", A: []string{"recv", "send1", "retnil"}[i]})
+				relAllGates(w) // a handler parked inside its own Unmarshal is user code, not drpc
 				w.Flow(20, nil)
 			}
+			relAllGates(w)
+			w.Flow(20, nil)
 			ts.mark(w, "settled")
 			// later calls fail
 			if t := w.FreeThread(); t != "" && w.NRPC() < sys.MaxRPC {
@@ -548,10 +551,11 @@ func C12(c *vf.Ctx) {
 			{Small: true, Threads: thr3},
 			{Small: false, Soft: true, Threads: thr3},
 			{Small: true, Soft: true, GateU: true, Threads: thr3},
+			{Small: true, Points: []string{"manager.stream.ctx"}, Threads: thr3},
 		},
-		scen:    []string{"queued-call-cancelled", "first-recv-flush-parked", "decoding-with-next-message-queued", "undecodable-message"},
-		kinds:   []string{"start", "hstep", "relw", "deliver", "cancel"},
-		weights: map[string]int{"invoke": 2, "newstream": 3, "op": 7, "hstep": 6, "relw": 7, "deliver": 7, "cancel": 1},
+		scen:    []string{"queued-call-cancelled", "first-recv-flush-parked", "decoding-with-next-message-queued", "undecodable-message", "cancel-races-completion"},
+		kinds:   []string{"start", "hstep", "relw", "deliver", "cancel", "point"},
+		weights: map[string]int{"invoke": 2, "newstream": 3, "op": 7, "hstep": 6, "relw": 7, "deliver": 7, "cancel": 1, "point": 1},
 		tail: func(w *sys.World, rng *rand.Rand, ts *tailState) {
 			side := rng.Intn(2)
 			ts.mark(w, "before")
